@@ -22,7 +22,7 @@ RULE = ('cases: every non-wrapping grid shape with extents 0..N per axis (plus L
         'Non-trivial query: the ball is clipped by the grid on at least one side AND contains >= 2 cells; distinct by (shape, centre, '
         'radius, kind).')
 ASSUMPTIONS = ['exhaustive only for extents <= N', 'radius >= 0, centre inside the grid, wrap_env=False (as the property states)']
-FLOORS = {'quick': {'radius_numpy_int': 4790, 'keyword_spelling': 9580, 'flag_int': 4790, 'flag_numpy_bool': 4790, 'queries': 56000, 'moore': 28000, 'neumann': 28000, 'center_as_id': 14000, 'center_as_tuple': 14000,
+FLOORS = {'quick': {'refused_queries': 33, 'radius_numpy_int': 4790, 'keyword_spelling': 9580, 'flag_int': 4790, 'flag_numpy_bool': 4790, 'queries': 56000, 'moore': 28000, 'neumann': 28000, 'center_as_id': 14000, 'center_as_tuple': 14000,
                     'center_as_position': 14000, 'center_fractional': 14000, 'generic_entry': 28000, 'clipped_queries': 10000,
                     'shapes': 36, 'big_shapes': 2, 'big_queries': 600, 'big_balls_1024_plus': 40, 'non_cubic_shapes': 30, 'reach:Environments.DiscreteWorld.get_moore_neighbours': 28000,
                     'reach:Environments.DiscreteWorld.get_neumann_neighbours': 28000, 'reach:Environments.DiscreteWorld.get_neighbours': 28000},
@@ -110,6 +110,17 @@ def run_case(ctx, case):
         pc_frac.x, pc_frac.y, pc_frac.z = c[0] + 0.25, c[1] + 0.9, c[2] + 0.5
         centres = [('id', ci), ('tuple', c), ('position', pc_int), ('fractional', pc_frac)]
         for r in range(maxr + 1):
+            if ci % 3 == 0 and r == 1:
+                # queries that the world refuses (an unknown cell id, a radius handed over as 1.0 / 2.0, a centre with too few coordinates, an
+                # unknown answer type) - the caller shrugs and asks properly afterwards: the proper answers are as exact as ever
+                from vlib import faults
+                bad_queries = [(env.get_neumann_neighbours, (len(table) + ci % 2, 1)), (env.get_moore_neighbours, (ci, float(1 + ci % 2))),
+                               (env.get_neumann_neighbours, (ci, float(1 + ci % 2), True, tuple)), (env.get_neighbours, (c[:2], 1, False, int, 'neumann')),
+                               (env.get_moore_neighbours, (c, 1, False, str)), (env.get_neighbours, (ci, 1, True, tuple, 'neumann' if ci % 2 else 'hex')),
+                               (env.get_neumann_neighbours, (-1 - len(table), 2))]
+                fn_, args_ = bad_queries[(ci // 3) % len(bad_queries)]
+                _, err_ = faults.attempt(fn_, *args_)
+                ctx.count('refused_queries' if err_ is not None else 'odd_queries_answered')
             cheb = [p for p in table if max(abs(p[0] - c[0]), abs(p[1] - c[1]), abs(p[2] - c[2])) <= r]
             manh = [p for p in table if abs(p[0] - c[0]) + abs(p[1] - c[1]) + abs(p[2] - c[2]) <= r]
             check(set(manh) <= set(cheb), 'oracle sanity')
